@@ -186,7 +186,7 @@ def array_array(bs, acc):
             for c in CODES:
                 ckind = 'float' if c in FLOAT_CODES else ('uint' if c.isupper() else 'int')
                 cwidth = SIZE[c] * 8
-                native = p in '=@' or p == NATIVE
+                native = p in '=@' or p == NATIVE or SIZE[c] == 1      # byte order is immaterial for one-byte items
                 match = ckind == kind and cwidth == width and native
                 acc.state((tc, p + c))
                 for op, th, src in (('ctor', lambda: bs.Array(p + c, aa).tolist(), f"bitstring.Array({p + c!r}, aa).tolist()"),
@@ -202,7 +202,10 @@ def array_array(bs, acc):
                                       '\n'.join(["import bitstring, array", f"aa = array.array({tc!r}, {base!r})", "try:", f"    r = {src}", "except (ValueError, TypeError):", "    r = 'rejected'",
                                                  f"assert r == {(list(aa) if match else 'rejected')!r}, r"]), list(aa) if match else 'rejected', str(got)[:100])
                 if match:
-                    a = bs.Array(p + c, aa)
+                    try:
+                        a = bs.Array(p + c, aa)
+                    except Exception:  # noqa: BLE001 - already reported by the ctor event above
+                        continue
                     for name, th, exp in (('equals', lambda: a.equals(aa), True), ('tobytes', lambda: a.tobytes(), aa.tobytes()),
                                           ('equals-other', lambda: a.equals(array.array(tc, base[:-1])), False)):
                         got = obs(th)
